@@ -224,6 +224,11 @@ class FuncAnalysis:
                 ao = self.alloc(e, "list", "slice")
                 self.gain(ao, self.deref(base, 1))
                 return {ao}
+            if isinstance(e.ctx, ast.Load):
+                for o in base:
+                    if o[0] == "G" and o[2] == 0 and self.eff.is_defaultdict_var(o[1]):
+                        # reading a missing key of a defaultdict INSERTS it: a read that writes
+                        self.mutate(o, "defaultdict-read", e)
             return self.deref(base, 1)
         if isinstance(e, (ast.Tuple, ast.List, ast.Set)):
             ao = self.alloc(e, {"Tuple": "tuple", "List": "list", "Set": "set"}[type(e).__name__])
@@ -748,6 +753,11 @@ class Effects:
                     if attr in self.model.classes[k].fields:
                         return self.model.classes[k].fields[attr]
         return None
+
+    def is_defaultdict_var(self, qual: str) -> bool:
+        bd = self.model.module_vars.get(qual)
+        v = bd.node if bd is not None else None
+        return isinstance(v, ast.Call) and core.src(v.func).split(".")[-1] == "defaultdict"
 
     def is_immutable_var(self, qual: str) -> bool:
         if qual in self._imm_cache:
